@@ -88,7 +88,7 @@ def check_kernels(chk, v, prog):
             lp = s["loops"][0]
             i = lp["var"]
             ns2 = sym.arrow(P(res, "proc"), "Ns2")
-            if (lp["lo"], lp["cmp"], lp["hi"]) != (ZERO, "<", ns2):
+            if not summ.visits(lp, ZERO, ns2):
                 problems.append("range [%s %s %s), expected [0, proc->Ns2)" % (sym.show(lp["lo"]), lp["cmp"], sym.show(lp["hi"])))
             val = s["val"]
             # std::complex product: a call/operator* on aa[i], bb[i]; compound assignment operators appear as the store op
@@ -114,7 +114,7 @@ def check_kernels(chk, v, prog):
                 prodt = args[0] if args else None
                 isprod = prodt is not None and prodt[0] in ("call", "obj") and "operator*" in prodt[1] and set(prodt[2]) == {ea, eb}
                 p2 = []
-                if (lp["lo"], lp["cmp"], lp["hi"]) != (ZERO, "<", ns2):
+                if not summ.visits(lp, ZERO, ns2):
                     p2.append("range [%s %s %s), expected [0, proc->Ns2)" % (sym.show(lp["lo"]), lp["cmp"], sym.show(lp["hi"])))
                 if dst != sym.addr(sym.idx(P(res, "coefsC"), i)) or not isprod:
                     p2.append("statement is %s" % summ.show_piece(c2)[:200])
